@@ -331,7 +331,12 @@ func (e *Enc) ret(x *ssa.Return, st *State) {
 	env := e.fnEnv(st, res)
 	for i, c := range e.Ct.Ensures {
 		t := e.evalGoal(c.Expr, env)
+		nb := len(e.obls)
 		e.oblige("ensures", fmt.Sprintf("%s.ret%d", clauseLabel(c, i), e.retOrd), x.Pos(), e.reachHere(), t, "postcondition: "+c.Text)
+		if len(e.obls) > nb {
+			cc := c
+			e.obls[len(e.obls)-1].Clause = &cc
+		}
 	}
 	e.cover("cover", fmt.Sprintf("ret%d", e.retOrd), e.reachHere())
 	// frame: heap components not declared modifiable must be unchanged for pre-existing objects
